@@ -19,8 +19,13 @@
      end                                   end of the program (state is reset)
 
    A program WITHOUT a pipeline (no `src` line) may hand free jobs to the executors (Model/FreeJob.lean, C05):
-     submit <ex> <id>                      yaclib::Submit(<ex>, f_<id>)  (exe/submit.hpp; f_<id> logs itself like a callback)
-     call e<k> | drain e<k> | flush | expect     as above (st=idle, lc = lf = UniqueJobs alive)
+     submit <ex> <id> [ret|std|int|usr]    yaclib::Submit(<ex>, F{id})  (exe/submit.hpp; an RVALUE functor owning state <id>, which
+                                           logs its state like a callback and then returns / throws std::runtime_error / int / a struct)
+     fn f<j> <tag> [ret|std|int|usr]       the client creates the named functor f<j> owning state <tag>
+     submitl <ex> f<j>                     yaclib::Submit(<ex>, f<j>): an LVALUE, the job gets a copy
+     mut f<j> <tag> | kill f<j>            the client changes the state of f<j> / destroys f<j>
+     call e<k> | drain e<k> | flush | expect     as above; state line: st=idle, lc = UniqueJobs alive, lf = ls = functors /
+                                           functor states alive (jobs + named), fns=f<j>:<tag>,… the client's functors
 
      <source> ::= ready <r> | contract p<j> <ful> | contract_on <ex> p<j> <ful> | run <step> | async_contract <ex> p<j> <ful>
                 | task_ready <r> | schedule <step> | lazy_contract <ex> p<j> <ful> | shared_ready <r> | shared_contract p<j> <ful>
@@ -165,8 +170,24 @@ def showLog (g : G) : String :=
   s!"inv={commas (g.invoked.map toString)} ran={commas (g.ran.map fun x => s!"{x.id}@{showCtx x.ctx}")} " ++
   s!"jobs={commas (g.jobs.map fun (j, c) => s!"{j}{if c then "c" else "d"}")} sub={commas (g.subs.map toString)} "
 
+def insertSorted (x : Nat × Nat) : List (Nat × Nat) → List (Nat × Nat)
+  | [] => [x]
+  | y :: ys => if x.1 ≤ y.1 then x :: y :: ys else y :: insertSorted x ys
+
 def showFree (d : D) (f : FreeJob.FState) : String :=
-  showLog f.g ++ s!"st=idle al={f.news - d.lastAlloc} lc={f.news - f.deletes} lf={f.news - f.deletes}"
+  let live := f.news - f.deletes + f.fns.length
+  let fns := (f.fns.foldr insertSorted []).map fun (n, t) => s!"f{n}:{t}"
+  showLog f.g ++ s!"st=idle al={f.news - d.lastAlloc} lc={f.news - f.deletes} lf={live} ls={live} fns={commas fns}"
+
+def parseOutcome : List String → Option FreeJob.Outcome
+  | [] => some .ret
+  | ["ret"] => some .ret
+  | ["std"] => some .throwStd
+  | ["int"] => some .throwInt
+  | ["usr"] => some .throwUser
+  | _ => none
+
+def parseF (s : String) : Option Nat := (after "f" s).bind String.toNat?
 
 def fapply (d : D) (f : FreeJob.FState) (ev : FreeJob.FEvent) : D :=
   { d with free := some (FreeJob.fmech d.cfgFn f ev) }
@@ -291,10 +312,32 @@ def stepLine (d : D) (ts : List String) : D × Option String :=
         | some i => ({ d with tab := (pid, { i with steps := i.steps ++ [s] }) :: d.tab }, some "ok")
         | none => (d, some "bad"))
      | _, _ => (d, some "bad"))
-  | ["submit", e, id] =>
-    (match parseExec e, id.toNat? with
-     | some e, some id => if d.begun then (d, some "bad") else (fapply d (d.free.getD {}) (.submit e id), none)
+  | "submit" :: e :: id :: o =>
+    (match parseExec e, id.toNat?, parseOutcome o with
+     | some e, some id, some o => if d.begun then (d, some "bad") else (fapply d (d.free.getD {}) (.submit e id o), none)
+     | _, _, _ => (d, some "bad"))
+  | "fn" :: n :: tag :: o =>
+    (match parseF n, tag.toNat?, parseOutcome o with
+     | some n, some tag, some o => if d.begun then (d, some "bad") else (fapply d (d.free.getD {}) (.mk n tag o), none)
+     | _, _, _ => (d, some "bad"))
+  | ["submitl", e, n] =>
+    (match parseExec e, parseF n with
+     | some e, some n =>
+       if d.begun || ((d.free.getD {}).fns.lookup n).isNone then (d, some "bad")
+       else (fapply d (d.free.getD {}) (.submitL e n), none)
      | _, _ => (d, some "bad"))
+  | ["mut", n, tag] =>
+    (match parseF n, tag.toNat? with
+     | some n, some tag =>
+       if d.begun || ((d.free.getD {}).fns.lookup n).isNone then (d, some "bad")
+       else (fapply d (d.free.getD {}) (.change n tag), none)
+     | _, _ => (d, some "bad"))
+  | ["kill", n] =>
+    (match parseF n with
+     | some n =>
+       if d.begun || ((d.free.getD {}).fns.lookup n).isNone then (d, some "bad")
+       else (fapply d (d.free.getD {}) (.kill n), none)
+     | none => (d, some "bad"))
   | "src" :: rest =>
     if d.free.isSome then (d, some "bad") else
     (match parseSrc d.kept d.tab rest with
